@@ -189,7 +189,7 @@ func TestRestartAtEveryStoreOp(t *testing.T) {
 		lease bool
 		grace int
 	}
-	cfgs := []cfgT{{"10.0.0.0/29", 32, false, 0}, {"2001:db8::/125", 128, false, 0}, {"10.0.0.0/29", 32, true, 1}, {"10.0.0.0/29", 32, true, 2}, {"10.0.0.0/28", 30, false, 0}}
+	cfgs := []cfgT{{"10.0.0.0/29", 32, false, 0}, {"2001:db8::/125", 128, false, 0}, {"10.0.0.0/29", 32, true, 1}, {"10.0.0.0/29", 32, true, 2}, {"10.0.0.0/28", 30, false, 0}, {"10.0.0.64/27", 30, true, 1}}
 	histories := run.Pick(60, 1200)
 	maxLen := run.Pick(10, 25)
 	permMax := run.Pick(6, 20)
